@@ -90,9 +90,9 @@ type pathState struct {
 }
 
 type hashApp struct {
-	alg string
-	in  []value
-	out []*smt.Term // per byte
+	name string
+	in   *smt.Term
+	app  *smt.Term
 }
 
 func (i *interpreter) resetPath(prefix []Decision) {
